@@ -20,6 +20,9 @@ func verifYield(point string, channel string, collectionID int64) {}
 // verifYieldIfFree is a no-op unless built with the verif tag.
 func verifYieldIfFree(l *deadlock.RWMutex, point string, channel string, collectionID int64) {}
 
+// verifTuneManager is a no-op unless built with the verif tag.
+func verifTuneManager(r *replicateChannelManager) {}
+
 // verifNote is a no-op unless built with the verif tag; it never blocks.
 func verifNote(point string, channel string, a uint64, ref any) {}
 
